@@ -156,16 +156,23 @@ def prime_and_drop(order):
     as assign / get / delete targets through string segments, and dropped (del + gc.collect()), so
     that the classes made next may be allocated where a class of ANOTHER kind used to live."""
     import gc
+    problems = []
     for kind in order:
         cls = ephemeral_classes()[kind]
-        if kind == 'list':
-            t = cls([0])
-            glom.assign(t, '0', 1); glom.glom(t, '0'); glom.delete(t, '0')
-        else:
-            t = cls()
-            glom.assign(t, 'k', 1); glom.glom(t, 'k'); glom.delete(t, 'k')
+        key = '0' if kind == 'list' else 'k'
+        t = cls([0]) if kind == 'list' else cls()
+        try:        # assign / read back / delete on a brand-new class: must simply work
+            same = glom.assign(t, key, 1) is t
+            got = glom.glom(t, key)
+            glom.delete(t, key)
+            left = len(t) if kind != 'obj' else len(vars(t))
+            if not (same and got == 1 and left == 0):
+                problems.append('%s: returned-same=%s read-back=%r entries-left=%d' % (kind, same, got, left))
+        except Exception as e:
+            problems.append('%s: %s' % (kind, exc_name(e)))
         del t, cls
     gc.collect(1)       # the classes were made a moment ago: the young generations suffice
+    return problems
 
 
 def build(case, logging, classes=None):
@@ -418,10 +425,10 @@ def run_case(case, spelling, logging, route='default', ephemeral=False):
     module-level functions.  ephemeral: the target classes are made with type() for this one call,
     after classes of other kinds were created, used and garbage-collected."""
     name, mk, s_rooted = spelling
-    classes = None
+    classes, primer = None, []
     if ephemeral:
         kinds = sorted({c['cls'] for c in case['heap0']} & {'dict', 'list', 'obj'})
-        prime_and_drop(kinds[1:] + kinds[:1] if len(kinds) > 1 else ['obj' if kinds == ['dict'] else 'dict'])
+        primer = prime_and_drop(kinds[1:] + kinds[:1] if len(kinds) > 1 else ['obj' if kinds == ['dict'] else 'dict'])
         classes = ephemeral_classes()
     heap = build(case, logging, classes)
     do_glom = GLOMMER.glom if route == 'glommer' else glom.glom
@@ -461,6 +468,8 @@ def run_case(case, spelling, logging, route='default', ephemeral=False):
     events = list(WLOG)
     del WLOG[:]
     obs = _observe(heap, case, ok, cls, res, events, nfac[0], route=route)
+    if primer:
+        obs['primer_problems'] = primer
     FAULT.clear()
     return obs
 
@@ -530,6 +539,8 @@ def conform_clause(case, exp, obs):
     """ConformClause of GlomMutate.tla on an observation (same order of clauses)."""
     n0 = len(case['heap0'])
     h = obs['heap']
+    if obs.get('primer_problems'):
+        return 'history-dependent: assign / read / delete on a brand-new class failed (%s)' % obs['primer_problems'][0]
     if obs.get('literal_untouched') is False:
         return 'literal-value-mutated'
     if exp['err'] == 'unspecified':
@@ -686,7 +697,11 @@ def worker(states):
             out['vac'][key] = out['vac'].get(key, 0) + 1
         if len(out['samples']) < 1 and st['log'] and len(case['steps']) >= 2:
             out['samples'].append(dict(case=case, exp=st['exp'], out=st['out'], log=st['log']))
-        replay_state(st, out)
+        try:
+            replay_state(st, out)
+        except Exception as e:       # never let an unpicklable exception kill a pool worker
+            import traceback as _tb
+            out.setdefault('errors', []).append('%r\n%s' % (e, _tb.format_exc()[-1500:]))
     return out
 
 
@@ -962,6 +977,9 @@ class Driver:
         check.add_tlc(res2, '%s cases [%s]' % (self.mc, label))
         log_rows = []
         drift = 0
+        errors = [e for r in results for e in r.get('errors', [])]
+        if errors:
+            raise vlib.MachineryError('%d replay(s) raised inside the harness, first: %s' % (len(errors), errors[0]))
         for r in results:
             check.cov['evaluations'] += r['n']
             check.cov['distinct_nontrivial'] += r['nontrivial']
@@ -986,11 +1004,16 @@ class Driver:
         if not rows:
             return
         for r in rows:
+            if r['obs'].get('primer_problems'):
+                check.violation(dict(case=r['case'], obs=r['obs'], exp=None, spelling=r.get('spelling', ''), logging=True,
+                                     clause='history-dependent', direction='code->spec', ephemeral=True),
+                                'assign / read / delete on a brand-new class failed after other classes were collected: %s'
+                                % r['obs']['primer_problems'], matcher=self.match_rows)
             if r['obs'].get('literal_untouched') is False:
                 check.violation(dict(case=r['case'], obs=r['obs'], exp=None, spelling=r.get('spelling', ''), logging=True,
                                      clause='literal-value-mutated', direction='code->spec'),
                                 'the literal value passed to assign was modified', matcher=self.match_rows)
-        slim = [dict(case=r['case'], obs={k: v for k, v in r['obs'].items() if k != 'literal_untouched'}) for r in rows]
+        slim = [dict(case=r['case'], obs={k: v for k, v in r['obs'].items() if k not in ('literal_untouched', 'primer_problems')}) for r in rows]
         index = {id(s): r for s, r in zip(slim, rows)}
         rejects = vlib.validate_rows(check, self.trace, slim, label, chunk=4000)
         for (row, rej) in rejects:
@@ -1079,9 +1102,9 @@ class Driver:
     def main(self, tier, seed, universes, nrandom, assumptions, rule):
         check = vlib.Check(self.prop, tier, seed)
         self.lap(check, 'start')
-        if tier == 'thorough':       # TLC -coverage is slow; the quick tier checks vacuity on the replayed behaviours
-            self.run_coverage(check)
-            self.lap(check, 'coverage')
+        # vacuity is checked on the replayed behaviours (behaviours_by_branch below: every machine action and
+        # every route must be taken) and by the spec mutants; TLC's own -coverage statistics were looked at
+        # during development but run out of memory on the present module, so they are not part of a run
         log_rows = []
         for u in universes:
             label, consts = u[0], u[1]
